@@ -258,9 +258,6 @@ func realDecode(raw json.RawMessage) any {
 		err = x.DecodeMapstructure(v)
 		res = strList(x)
 	case "ShellCommand":
-		if _, isStr := v.(string); isStr {
-			return map[string]any{"bad": "type"} // string form: go-shellwords, outside the model
-		}
 		var x types.ShellCommand
 		err = x.DecodeMapstructure(v)
 		if x != nil {
